@@ -45,7 +45,7 @@ example : computeV (B * B + 1) 3 1 1 (-1) = ((B * B + 2) / 3, 2) := by decide +k
 /-- what remains for the flag "no store outside a buffer": the size field of the matrix returned by mpn_hgcd, which the C
     asserts at gcdext.c:296 and :347 (`ASSERT (M.n <= (n - p - 1)/2)`); its proof needs the normalisation argument of
     mpn_hgcd_matrix_mul's comment (the entries themselves ARE bounded: `mpn_hgcd_correct_partial`). -/
-def HgcdMn (thr : Thr) (ns : Nat → Nat) : Prop := HgMn (hgcd thr ns)
+def HgcdMn (thr : Thr) (ns : Nat → Nat) : Prop := HgMn (hgcd thr ns) thr.reduce
 
 /-- PARTIAL (full statement: without `hR` and with `r.ok = true` unconditionally; missing: (1) mpn_hgcd for operands of
     HGCD_REDUCE_THRESHOLD limbs or more — mpn_hgcd_appr's truncation analysis — so the theorem covers divisors V with
